@@ -1,8 +1,97 @@
 import TRV.Oracle.Util
-/-! Oracle operations: Net (stub, filled in by the module that owns it). -/
-namespace TRV.Oracle.Net
-open TRV.Oracle
+import TRV.Oracle.Policy
+import TRV.Spec.Net
+/-!
+Oracle operations for the abstract network (C13).
 
-def handlers : List (String × Handler) := []
+Topology tokens: `<destaddr> <open 0/1> <sack 0/1> <N> <router>…` with `<router>` = `<addrhex>:<silent 0/1>`
+(exactly `N` of them).  Hops are printed as `<ttl>:<iphex>:<dest 0/1>` (`-` = no address).
+
+* `net.trace <proto> <method> <min> <max> <topology>` — the model of the whole CLI on this network
+  (`Net.cli`): `hops …` | `notsupported` | `failed` | `unmodelled`.  `<proto>` = `icmp|udp|tcp`,
+  `<method>` = a `pol.*` method name (ignored unless `tcp`).
+* `net.spec <min> <max> <topology>` — the reference hop list (`Spec.Net.expectedHops`).
+* `net.ok <min> <max> <topology> <hop>…` with `<hop>` = `<ttl>:<iphex>:<dest>:<rtt ns>` — the property
+  predicate `Spec.Net.traceOK` on a reported hop list.
+-/
+namespace TRV.Oracle.Net
+open TRV TRV.Oracle TRV.Engine TRV.Net TRV.Spec.Net
+
+def parseRouter (s : String) : Option Router :=
+  match splitOn s ':' with
+  | [a, sl] => do
+    let a ← parseHex a
+    let sl ← parseBool sl
+    pure { addr := a, silent := sl }
+  | _ => none
+
+/-- parses a topology prefix, returns the network and the remaining tokens -/
+def parseTopo : List String → Option (Net × List String)
+  | d :: o :: s :: k :: rest => do
+    let d ← parseHex d
+    let o ← parseBool o
+    let s ← parseBool s
+    let k ← k.toNat?
+    if rest.length < k then none else
+    let rs ← (rest.take k).mapM parseRouter
+    pure ({ routers := rs, dest := { addr := d, port := if o then .opened else .closed, sackEnabled := s } },
+          rest.drop k)
+  | _ => none
+
+def parseProto (p m : String) : Option Proto :=
+  if p = "icmp" then some .icmp
+  else if p = "udp" then some .udp
+  else if p = "tcp" then (TRV.Oracle.Policy.parseMethod m).map .tcp
+  else none
+
+def showPHop (h : PHop) : String := s!"{h.ttl}:{toHex h.ip}:{showBool h.dest}"
+
+def showPHops (hs : List PHop) : String :=
+  if hs.isEmpty then "hops" else "hops " ++ " ".intercalate (hs.map showPHop)
+
+def parseHop (s : String) : Option Hop :=
+  match splitOn s ':' with
+  | [t, ip, d, rtt] => do
+    let t ← t.toNat?
+    let ip ← parseHex ip
+    let d ← parseBool d
+    let rtt ← parseInt rtt
+    pure { ttl := t, ip := ip, rtt := rtt, dest := d }
+  | _ => none
+
+def trace : Handler
+  | p :: m :: mn :: mx :: rest => orBad do
+    let p ← parseProto p m
+    let mn ← mn.toNat?
+    let mx ← mx.toNat?
+    let (n, extra) ← parseTopo rest
+    if !extra.isEmpty then none else
+    pure (match cli n p mn mx with
+      | .hops hs => showPHops (hs.map erase)
+      | .notSupported => "notsupported"
+      | .failed => "failed"
+      | .unmodelled => "unmodelled")
+  | _ => badOp
+
+def spec : Handler
+  | mn :: mx :: rest => orBad do
+    let mn ← mn.toNat?
+    let mx ← mx.toNat?
+    let (n, extra) ← parseTopo rest
+    if !extra.isEmpty then none else
+    pure (showPHops (expectedHops n mn mx))
+  | _ => badOp
+
+def ok : Handler
+  | mn :: mx :: rest => orBad do
+    let mn ← mn.toNat?
+    let mx ← mx.toNat?
+    let (n, hs) ← parseTopo rest
+    let hops ← hs.mapM parseHop
+    pure (showBool (traceOK n mn mx hops))
+  | _ => badOp
+
+def handlers : List (String × Handler) :=
+  [("net.trace", trace), ("net.spec", spec), ("net.ok", ok)]
 
 end TRV.Oracle.Net
